@@ -33,6 +33,7 @@ type vmCtx struct {
 	err       string // "canceled" | "deadline"
 	children  []*vmCtx
 	firesAt   int // for WithTimeout: Done() poll index at which it fires (-1 never)
+	detached  bool // context.WithoutCancel: values of the parent, not its cancellation
 	polls     int
 }
 
@@ -55,6 +56,9 @@ func (c *vmCtx) canceller() *vmCtx {
 	for x := c; x != nil; x = x.parent {
 		if x.cancelCtx {
 			return x
+		}
+		if x.detached {
+			return nil
 		}
 	}
 	return nil
@@ -957,6 +961,9 @@ func init() {
 				panic(targetStringPanic("nil key"))
 			}
 			return iface{vmCtxType, &vmCtx{parent: p, key: a[1], val: a[2], hasKey: true, firesAt: -1}}
+		},
+		"context.WithoutCancel": func(fr *frame, a []value) value {
+			return iface{vmCtxType, &vmCtx{parent: ctxOf(a[0]), detached: true, firesAt: -1}}
 		},
 		"context.WithCancel": func(fr *frame, a []value) value {
 			c := newCancelCtx(ctxOf(a[0]))
